@@ -77,6 +77,7 @@ def applyKey (c : Cfg) (ctx : Nat) (k : String) (v : Nat) : Option Cfg :=
   | "layers" => some { c with layerLimit := v }
   | "lzmalayers" => some { c with lzmaLayerLimit := v }
   | "bomb" => some { c with bombLimit := v }
+  | "ztime" => some c                      -- compression time limit: the time-based check is outside the model
   | "spaceuri" => some { c with allowSpaceUri := b }
   | "lws" => some { c with lwsUnwanted := v }
   | "log" => some c                        -- log level: no effect on anything the model reports
